@@ -84,6 +84,13 @@ Theorem C20_info_exact : forall nr nc ops, Forall corr_ok ops ->
   Permutation (listed (st_info (session nr nc ops))) (zrange nc (Z.to_nat (st_nc (session nr nc ops) - nc))).
 Proof. exact info_exact. Qed.
 
+(* one call of a history, on an input matrix with nc columns and any previous self-description: the call lists
+   exactly the columns nc .. nc + added - 1 in addition to what was listed before *)
+Theorem C20_info_call : forall s o, corr_ok o ->
+  st_nc (step false s o) = st_nc s + added o /\
+  Permutation (listed (st_info (step false s o))) (listed (st_info s) ++ zrange (st_nc s) (Z.to_nat (added o))).
+Proof. exact step_listed. Qed.
+
 Theorem C20_info_old_refuted : exists nr nc ops, Forall corr_ok ops /\
   st_nc (session_old nr nc ops) = nc + 2 /\ listed (st_info (session_old nr nc ops)) = [nc] /\
   ~ In (nc + 1) (listed (st_info (session_old nr nc ops))).
@@ -193,6 +200,7 @@ Print Assumptions C20_dup_prefix_refuted.
 Print Assumptions C20_combo.
 Print Assumptions C20_corr_info.
 Print Assumptions C20_info_exact.
+Print Assumptions C20_info_call.
 Print Assumptions C20_info_old_refuted.
 Print Assumptions C20_labels_mono.
 Print Assumptions C20_labels_count.
